@@ -5,8 +5,11 @@ import (
 	"go/constant"
 	"go/token"
 	"go/types"
+	"os"
+	"runtime/debug"
 	"sort"
 	"strings"
+	"time"
 
 	"golang.org/x/tools/go/ssa"
 )
@@ -24,6 +27,7 @@ type Oblig struct {
 	solver  string
 	secs    float64
 	model   map[string]uint64
+	stack   string
 }
 
 type Nondet struct {
@@ -73,8 +77,22 @@ type Engine struct {
 	initDone    map[*ssa.Package]bool
 	tolerant    int // >0 while executing package init code
 	selectN     int
+	shadow      map[string]int64  // high-level nondet values to follow (debug)
+	shadowAsg   map[string]uint64 // solver-variable assignment derived from shadow
+	shadowMemo  map[int]uint64
+	shadowLog   *os.File
+	stack       []string
+	feas        *solverProc
+	feasN, feasCut int
+	feasSecs    float64
+	feasAsserted int
+	noFeas      bool
+	maxTerms    int
+	deadline    time.Time
+	traceCalls  bool
 	traces      []traceRec
 	pin         map[string]int64
+	pinCase     map[string]int64
 }
 
 type traceRec struct {
@@ -110,6 +128,15 @@ type frame struct {
 	free   []Value
 	skipG  map[*ssa.BasicBlock]*Term // map-range: visit condition for the pending iteration of the header block
 	bad    *Term                     // panic conditions raised by the current instruction
+}
+
+func (e *Engine) checkBudget() {
+	if e.maxTerms > 0 && nTerms > e.maxTerms {
+		abort("symbolic execution budget exceeded: %d term nodes after %d block instances", nTerms, e.blocksRun)
+	}
+	if !e.deadline.IsZero() && time.Now().After(e.deadline) {
+		abort("symbolic execution time budget exceeded after %d block instances, %d term nodes", e.blocksRun, nTerms)
+	}
 }
 
 type abortErr struct{ msg string }
@@ -329,6 +356,11 @@ func (fr *frame) execLoop(lp *loopInfo) {
 			delete(fr.in, lp.header)
 			return
 		}
+		if iter > 0 && !fr.e.feasibleSMT(g) {
+			// the solver shows that no input inside the assumptions reaches another iteration
+			delete(fr.in, lp.header)
+			return
+		}
 		if iter >= K {
 			fr.e.addOblig("unwind", fmt.Sprintf("loop in %s exceeds %d iterations", fr.fn.Name(), K), fr.e.posStr(lp.header.Instrs[0].Pos(), fr.fn), g)
 			delete(fr.in, lp.header)
@@ -421,6 +453,9 @@ func (fr *frame) execBlock(b *ssa.BasicBlock) {
 		return
 	}
 	fr.e.blocksRun++
+	if fr.e.blocksRun&0xff == 0 {
+		fr.e.checkBudget()
+	}
 	var phiVals []Value
 	var phis []*ssa.Phi
 	for _, ins := range b.Instrs {
@@ -459,7 +494,11 @@ func (fr *frame) execBlock(b *ssa.BasicBlock) {
 	}
 	for _, ins := range b.Instrs[len(phis):] {
 		fr.bad = nil
+		gBefore := g
 		g = fr.execInstr(b, ins, g)
+		if fr.e.shadowLog != nil {
+			fr.e.logShadow(fr, ins, gBefore)
+		}
 		if g == False {
 			return
 		}
@@ -513,7 +552,10 @@ func (e *Engine) addOblig(kind, label, pos string, cond *Term) {
 			return
 		}
 	}
-	o := &Oblig{kind: kind, label: label, pos: pos, cond: cond, nAssume: len(e.assumes)}
+	o := &Oblig{kind: kind, label: label, pos: pos, cond: cond, nAssume: len(e.assumes), stack: strings.Join(e.stack, " > ")}
+	if dbg := os.Getenv("VERIF_DEBUG_OBLIG"); dbg != "" && strings.Contains(pos, dbg) {
+		o.stack += "\n" + string(debug.Stack())
+	}
 	e.obligs = append(e.obligs, o)
 	e.obIndex[key] = o
 }
@@ -521,6 +563,9 @@ func (e *Engine) addOblig(kind, label, pos string, cond *Term) {
 func (fr *frame) panicAt(cond *Term, kind string, pos token.Pos) {
 	if fr.e.tolerant > 0 {
 		return
+	}
+	if fr.e.shadowLog != nil && cond != False && fr.e.shadowEval(cond) == 1 {
+		fmt.Printf("SHADOW: panic condition true under the model: %s at %s stack=%v\n%s\n", kind, fr.e.posStr(pos, fr.fn), fr.e.stack, debug.Stack())
 	}
 	fr.e.addOblig("panic", kind, fr.e.posStr(pos, fr.fn), cond)
 	// the path that panics does not continue: execBlock strengthens the guard after the instruction
@@ -718,10 +763,7 @@ func (fr *frame) sliceStore(s SliceV, i *Term, v Value, g *Term, pos token.Pos) 
 
 // boundOf returns a concrete upper bound for a length term.
 func (fr *frame) boundOf(n *Term, g *Term, what string, pos token.Pos) int {
-	if m, ok := maxConst(n); ok {
-		if m > 1<<20 {
-			abort("%s: constant size %d too large at %s", what, m, fr.e.posStr(pos, fr.fn))
-		}
+	if m, ok := maxConst(n); ok && m <= 4096 {
 		return int(m)
 	}
 	// symbolic, unbounded: use the default capacity and record a limit obligation
@@ -764,7 +806,7 @@ func strSub(s StringV, lo, hi *Term) StringV {
 			l = len(s.b)
 		}
 		b := s.b[l:]
-		if m, ok := maxConst(n); ok && int(m) < len(b) {
+		if m, ok := maxConst(n); ok && m < uint64(len(b)) {
 			b = b[:m]
 		}
 		return StringV{b: b, n: n}
@@ -785,7 +827,7 @@ func strSub(s StringV, lo, hi *Term) StringV {
 		return r
 	}
 	capN := len(s.b)
-	if m, ok := maxConst(n); ok && int(m) < capN {
+	if m, ok := maxConst(n); ok && m < uint64(capN) {
 		capN = int(m)
 	}
 	r := StringV{n: n, b: make([]*Term, capN)}
@@ -856,16 +898,15 @@ func strLess(a, b StringV) *Term {
 func (fr *frame) bytesToString(s SliceV, g *Term, pos token.Pos) StringV {
 	n := sliceLen(s)
 	capN := 0
-	if m, ok := maxConst(n); ok {
-		capN = int(m)
-	} else {
-		for _, al := range s.alts {
-			if al.obj != nil {
-				if l := len(al.obj.val.(ArrayV).e); l > capN {
-					capN = l
-				}
+	for _, al := range s.alts {
+		if al.obj != nil {
+			if l := len(al.obj.val.(ArrayV).e); l > capN {
+				capN = l
 			}
 		}
+	}
+	if m, ok := maxConst(n); ok && m < uint64(capN) {
+		capN = int(m)
 	}
 	r := StringV{n: n, b: make([]*Term, capN)}
 	for j := 0; j < capN; j++ {
@@ -886,4 +927,122 @@ func (fr *frame) stringToBytes(s StringV) SliceV {
 	}
 	obj := newObject(a)
 	return SliceV{alts: []SliceAlt{{g: True, obj: obj, off: BV(IntW, 0), ln: s.n, cap: s.n}}}
+}
+
+
+// feasibleSMT asks a persistent solver whether guard g is satisfiable together with the assumptions made so far.
+// Only a definite "unsat" prunes; unknown, timeouts and errors keep the path. (Dead-work pruning only: an
+// iteration that is cut here would have contributed obligations with an unsatisfiable guard.)
+func (e *Engine) feasibleSMT(g *Term) bool {
+	if e.noFeas || g == True {
+		return true
+	}
+	if g.op == "var" || (g.op == "not" && g.args[0].op == "var") {
+		return true
+	}
+	if e.feas == nil || e.feas.dead {
+		p, err := startSolver("z3-new")
+		if err != nil {
+			e.noFeas = true
+			return true
+		}
+		e.feas = p
+		e.feasAsserted = 0
+	}
+	t0 := time.Now()
+	p := e.feas
+	// assumptions are asserted permanently (they only grow)
+	p.sb.Reset()
+	var pre strings.Builder
+	for ; e.feasAsserted < len(e.assumes); e.feasAsserted++ {
+		n := p.em.emit(e.assumes[e.feasAsserted])
+		pre.WriteString(p.sb.String())
+		p.sb.Reset()
+		fmt.Fprintf(&pre, "(assert %s)\n", n)
+	}
+	if pre.Len() > 0 {
+		if _, err := p.exchange(pre.String(), 30*time.Second); err != nil {
+			return true
+		}
+	}
+	r := p.check([]*Term{g}, 1500, false)
+	e.feasN++
+	e.feasSecs += time.Since(t0).Seconds()
+	if r.verdict == "unsat" {
+		e.feasCut++
+		return false
+	}
+	return true
+}
+
+
+func (e *Engine) shadowEval(t *Term) uint64 {
+	return evalTerm(t, e.shadowAsg, e.shadowMemo)
+}
+
+func (e *Engine) logShadow(fr *frame, ins ssa.Instruction, g *Term) {
+	v, ok := ins.(ssa.Value)
+	if !ok {
+		return
+	}
+	if e.shadowEval(g) == 0 {
+		return
+	}
+	val, ok := fr.env[v]
+	if !ok {
+		return
+	}
+	var desc string
+	switch x := val.(type) {
+	case *Term:
+		desc = fmt.Sprint(e.shadowEval(x))
+	case StringV:
+		n := e.shadowEval(x.n)
+		bs := []byte{}
+		for i := 0; i < int(n) && i < len(x.b); i++ {
+			bs = append(bs, byte(e.shadowEval(x.b[i])))
+		}
+		desc = fmt.Sprintf("%q", string(bs))
+	case SliceV:
+		for _, al := range x.alts {
+			if e.shadowEval(al.g) == 1 {
+				id := -1
+				if al.obj != nil {
+					id = 0
+				}
+				desc = fmt.Sprintf("slice(obj?%d off=%d len=%d cap=%d)", id, e.shadowEval(al.off), e.shadowEval(al.ln), e.shadowEval(al.cap))
+			}
+		}
+	case PtrV:
+		for _, al := range x.alts {
+			if e.shadowEval(al.g) == 1 {
+				if al.obj == nil {
+					desc = "ptr(nil)"
+				} else {
+					desc = "ptr(obj)"
+				}
+			}
+		}
+	case IfaceV:
+		for _, al := range x.alts {
+			if e.shadowEval(al.g) == 1 {
+				if al.typ == nil {
+					desc = "iface(nil)"
+				} else {
+					desc = "iface(" + al.typ.String() + ")"
+				}
+			}
+		}
+	case TupleV:
+		for _, c := range x {
+			if t, ok := c.(*Term); ok {
+				desc += fmt.Sprint(e.shadowEval(t)) + ","
+			} else {
+				desc += "_,"
+			}
+		}
+	default:
+		return
+	}
+	fmt.Fprintf(e.shadowLog, "%s %s = %s  :: %s\n", fr.fn.Name(), v.Name(), desc, ins.String())
 }
